@@ -56,47 +56,56 @@ def _callback_regs(prog):
 
 def r04_1(prog, rep):
     rid = "R04.1"
+    import re
+    from ..inline import with_inlined
     regs, sites = _callback_regs(prog)
     rs = {n for n in regs["reschedule_cb"]}
     if len(rs) != 1:
         raise AnalysisBroken("R04.1: expected one reschedule callback, found %s" % sorted(rs))
     rname = rs.pop()
-    f = prog.fn(rname, DAEMON)
-    cfg = f.cfg
-    now = f.params[1]["n"]
-    # (a) the event comes from the unwinder applied to the task's stream and `now`
-    uw = [c for c in f.all_calls() if c[2].get("fn") and prog.has_fn(c[2]["fn"], DAEMON) and
-          any(cc[2].get("fn") in POPS for cc in prog.fn(c[2]["fn"], DAEMON).all_calls())]
-    if len(uw) != 1:
-        rep.fail(rid, "%s/unwind-call" % rname, f.loc(), "expected exactly one call to an unwinding helper, found %d" % len(uw))
+    f0 = prog.fn(rname, DAEMON)
+    now = f0.params[1]["n"]
+    # the callback and the helper that unwinds the stream are read as one piece of code: a daemon function called from the callback
+    # that peeks/pops the stream is spliced in, so it does not matter whether the unwinding loop lives in a helper or in the callback
+    helpers = sorted({c[2]["fn"] for c in f0.all_calls() if c[2].get("fn") and c[2]["fn"] != rname and prog.has_fn(c[2]["fn"], DAEMON) and
+                      any(cc[2].get("fn") in POPS + PEEKS for cc in prog.fn(c[2]["fn"], DAEMON).all_calls())})
+    if len(helpers) > 1:
+        rep.fail(rid, "%s/unwind-call" % rname, f0.loc(), "expected at most one unwinding helper, found %s" % helpers)
         return
-    ub, ui, ucall, uline = uw[0]
-    unw = prog.fn(ucall["fn"], DAEMON)
-    a0 = strip_casts(cfg.resolve(ucall["a"][0]))
-    srcs = _origin(f, lv(a0))
-    if lv(cfg.resolve(ucall["a"][1])) == now and any(s.endswith("->strm") for s in srcs | {lv(a0)}):
-        rep.ok(rid, "%s/unwind-args" % rname, f.loc(uline), "%s(task stream, %s)" % (unw.name, now))
+    f = with_inlined(prog, f0, helpers)
+    label = helpers[0] if helpers else rname + ".unwind"
+    cfg = f.cfg
+    peeks = call_sites(f, PEEKS)
+    pops = call_sites(f, POPS) + [S for S in indirect_call_sites(f, "next")]
+    pops = [S for S in pops if S.node.get("fn") in POPS or S.node.get("fn") is None]
+    if not peeks or not pops:
+        rep.fail(rid, "%s/shape" % label, f.loc(), "expected a peek and a pop of the stream, found %d/%d" % (len(peeks), len(pops)))
+        return
+    strms = {lv(cfg.resolve(S.node["a"][0])) for S in peeks + pops if S.node.get("fn")}
+    if len(strms) != 1 or any(S.node.get("fn") is None for S in pops):
+        rep.fail(rid, "%s/same-stream" % label, f.loc(), "peek and pop do not operate on one and the same stream (%s)" % sorted(strms))
+        return
+    strm = strms.pop()
+    rep.ok(rid, "%s/same-stream" % label, f.loc(), "peek and pop both operate on %s" % strm)
+    tset = {now} | {l_["n"] for l_ in f.locals if _origin(f, l_["n"]) == {now}}
+    if any(s_.endswith("->strm") for s_ in _origin(f, strm) | {strm}):
+        rep.ok(rid, "%s/unwind-args" % rname, f.loc(peeks[0].line), "the task's stream is unwound against %s" % now)
     else:
-        rep.fail(rid, "%s/unwind-args" % rname, f.loc(uline), "unwinder is called with (%s, %s), expected (task stream, %s)" % (show(ucall["a"][0]), show(ucall["a"][1]), now))
-    # event variable
-    ev = None
+        rep.fail(rid, "%s/unwind-args" % rname, f.loc(peeks[0].line), "the unwound stream %s is not the task's stream" % strm)
+    # variables that carry the peeked event: assigned from the peek, or plain copies of such a variable
+    assigns = []
     for b, i, x, line in cfg.all_elems():
         for l, kind, n in writes(x):
-            rhs = n.get("init") if kind == "decl" else (n.get("r") if n.get("k") == "bin" else None)
-            if rhs is not None:
-                rr = strip_casts(cfg.resolve(rhs))
-                if rr.get("k") == "call" and rr.get("fn") == unw.name:
-                    ev = lv(l)
-    if ev is None:
-        rep.fail(rid, "%s/event-var" % rname, f.loc(), "result of %s is not kept" % unw.name)
-        return
-    # (c) no pop in the callback itself
-    pops = [c for c in f.all_calls() if c[2].get("fn") in POPS] + \
-           [S for S in indirect_call_sites(f, "next")]
-    if pops:
-        rep.fail(rid, "%s/no-pop-after-peek" % rname, f.loc(), "the reschedule callback pops the stream itself: the armed occurrence is consumed before it runs")
-    else:
-        rep.ok(rid, "%s/no-pop-after-peek" % rname, f.loc(), "no pop of the stream between the unwinder's peek and the return")
+            rhs = n.get("init") if kind == "decl" else (n.get("r") if n.get("k") == "bin" and n["op"] == "=" else None)
+            assigns.append((b, i, lv(l), kind, n, strip_casts(cfg.resolve(rhs)) if rhs is not None else None, line))
+    chain = {t for b, i, t, kind, n, r, line in assigns if r is not None and r.get("k") == "call" and r.get("fn") in PEEKS}
+    grew = True
+    while grew:
+        grew = False
+        for b, i, t, kind, n, r, line in assigns:
+            if r is not None and r.get("k") == "ref" and r["n"] in chain and t not in chain:
+                chain.add(t)
+                grew = True
     # (b) arming path returns instant_to_tstamp(ev.from)
     rets = []
     for b, i, x, line in cfg.all_elems():
@@ -106,37 +115,97 @@ def r04_1(prog, rep):
     for b, i, e, line in rets:
         e = strip_casts(e)
         srcs = {show(e)} if e.get("k") != "ref" else _origin_expr(f, e["n"])
-        for s in srcs:
-            if "instant_to_tstamp(" in s:
-                arming.append((b, i, s, line))
+        for s_ in srcs:
+            if "instant_to_tstamp(" in s_:
+                arming.append((b, i, s_, line))
     if len(arming) != 1:
         rep.fail(rid, "%s/arming-return" % rname, f.loc(), "expected exactly one return of instant_to_tstamp(...), found %d" % len(arming))
         return
     ab, ai, asrc, aline = arming[0]
-    if asrc.replace(" ", "") == "instant_to_tstamp(%s.from)" % ev:
+    m = re.fullmatch(r"instant_to_tstamp\(([A-Za-z_][\w$]*)\.from\)", asrc.replace(" ", ""))
+    if m and m.group(1) in chain:
+        ev = m.group(1)
         rep.ok(rid, "%s/arming-return" % rname, f.loc(aline), "wake-up time = instant_to_tstamp(%s.from) of the peeked event" % ev)
     else:
-        rep.fail(rid, "%s/arming-return" % rname, f.loc(aline), "wake-up time is %s, not instant_to_tstamp(%s.from)" % (asrc, ev))
-    # ev not modified between unwind and return
-    mods = [(b, i) for b, i, x, line in cfg.all_elems() for l, kind, n in writes(x)
-            if (lv(l) == ev or lv(l).startswith(ev + ".")) and (b, i) != (ub, ui) and not any(
-                strip_casts(cfg.resolve(n.get("init") or n.get("r") or {})).get("fn") == unw.name for _ in [0])]
-    if mods:
-        rep.fail(rid, "%s/event-unmodified" % rname, f.loc(), "the peeked event %s is modified before it is armed" % ev)
+        rep.fail(rid, "%s/arming-return" % rname, f.loc(aline), "wake-up time is %s, not instant_to_tstamp(<peeked event>.from) (peeked: %s)" % (asrc, sorted(chain)))
+        return
+    # the carriers are written by the peek (or a copy of it) only, and no field of them is touched
+    other = [(t, line) for b, i, t, kind, n, r, line in assigns if t in chain and kind != "decl" and not (
+        r is not None and (r.get("k") == "call" and r.get("fn") in PEEKS or r.get("k") == "ref" and r["n"] in chain))]
+    other += [(t, line) for b, i, t, kind, n, r, line in assigns if t in chain and kind == "decl" and r is not None and not (
+        r.get("k") == "call" and r.get("fn") in PEEKS or r.get("k") == "ref" and r["n"] in chain)]
+    if other:
+        rep.fail(rid, "%s/returns-peeked" % label, f.loc(other[0][1]), "the event that is armed (%s) is also assigned from something else than the peek" % other[0][0])
     else:
-        rep.ok(rid, "%s/event-unmodified" % rname, f.loc(), "the peeked event is armed as returned by the unwinder")
+        rep.ok(rid, "%s/returns-peeked" % label, f.loc(), "the armed event %s is assigned only from the peek" % ev)
+    mods = [(t, line) for b, i, t, kind, n, r, line in assigns if any(t.startswith(c_ + ".") for c_ in chain)]
+    if mods:
+        rep.fail(rid, "%s/event-unmodified" % rname, f.loc(mods[0][1]), "the peeked event is modified (%s) before it is armed" % mods[0][0])
+    else:
+        rep.ok(rid, "%s/event-unmodified" % rname, f.loc(), "the peeked event is armed as peeked")
+    # (c) no pop between the last peek and any return
+    bad_cb, bad_h, noentry = [], [], False
+    for rb, ri, e, line in rets:
+        hits, reached_entry = backward_scan(cfg, (rb, ri), lambda b, i, x: "hit" if (elem_has_call(x, POPS) or elem_has_call(x, PEEKS)) else None)
+        for h in hits:
+            if elem_has_call(cfg.elem(*h), POPS) and not elem_has_call(cfg.elem(*h), PEEKS):
+                (bad_h if cfg.blocks[h[0]].raw.get("inlined_from") in helpers else bad_cb).append(h)
+        if reached_entry and (rb, ri) == (ab, ai):
+            noentry = True
+    if bad_cb:
+        rep.fail(rid, "%s/no-pop-after-peek" % rname, f.loc(), "the reschedule callback pops the stream itself after the last peek: the armed occurrence is consumed before it runs")
+    else:
+        rep.ok(rid, "%s/no-pop-after-peek" % rname, f.loc(), "no pop of the stream between the last peek and a return")
+    if bad_h or noentry:
+        rep.fail(rid, "%s/no-pop-after-last-peek" % label, f.loc(),
+                 "a path returns after a pop without re-peeking: the returned occurrence has already been consumed")
+    else:
+        rep.ok(rid, "%s/no-pop-after-last-peek" % label, f.loc(), "every return is preceded by a peek with no pop in between")
     # run counter bumped on the arming path only
     incs = [(b, i, line) for b, i, x, line in cfg.all_elems() for l, kind, n in writes(x) if lv(l).endswith("nrun")]
     for b, i, line in incs:
-        # must reach only the arming return
         other = [r for r in rets if (r[0], r[1]) != (ab, ai) and (r[0] == b and r[1] > i or r[0] in cfg.reach_from(b) and r[0] != b)]
         if other:
             rep.fail(rid, "%s/nrun-on-arming-path" % rname, f.loc(line), "nrun is bumped on a path that does not arm an occurrence")
         else:
             rep.ok(rid, "%s/nrun-on-arming-path" % rname, f.loc(line), "nrun++ lies on the arming path only")
-    # the never-run test reads nrun
-    # (d) the unwinder
-    _unwinder(prog, rep, rid, unw)
+    # (d) decision table {e<now: pop, e=now: keep, e>now: keep, null: stop}: the pop is guarded by a strict `<` and by non-null
+    stamp = {"instant_to_tstamp(%s.from)" % c_ for c_ in chain}
+
+    def gen(c, truth):
+        out = set()
+        for a in cond_atoms(c, truth):
+            if len(a) == 5:
+                op, lt, rt, le, re_ = a
+                if lt.replace(" ", "") in stamp and rt in tset:
+                    out.add(("cmp", op))
+                elif rt.replace(" ", "") in stamp and lt in tset:
+                    from ..flow import SWAP
+                    out.add(("cmp", SWAP[op]))
+            else:
+                kind, text, e = a
+                e = strip(e)
+                if isinstance(e, dict) and e.get("k") == "call" and e.get("fn") in ("echs_event_0_p", "echs_nul_event_p"):
+                    out.add(("null" if kind == "true" else "nonnull", "e"))
+        return out
+
+    # a pop or a new peek invalidates what was known about the previous head of the stream
+    def kills(x):
+        if isinstance(x, dict) and x.get("k") == "call" and x.get("fn") in tuple(PEEKS) + tuple(POPS):
+            return {"e"} | stamp
+        return set()
+    mf = MustFacts(cfg, gen=gen, kills=kills, disjunctive=False)
+    for qi, Q in enumerate(pops):
+        fa = mf.at(Q.b, Q.i) or set()
+        cmps = [x for x in fa if x[0] == "cmp"]
+        key = "%s/pop-guard" % label if len(pops) == 1 else "%s/pop-guard#%d" % (label, qi + 1)
+        if ("nonnull", "e") in fa and len(cmps) == 1 and cmps[0][1] == "<":
+            rep.ok(rid, key, f.loc(Q.line), "pop only while the peeked event is non-null and instant_to_tstamp(%s.from) < %s (strict): "
+                   "table {e<now: pop, e=now: keep, e>now: keep, null: stop}" % (ev, now))
+        else:
+            rep.fail(rid, key, f.loc(Q.line),
+                     "the pop is guarded by %s; required: non-null and instant_to_tstamp(%s.from) < %s with a strict `<` "
+                     "(`<=` drops the occurrence that is due exactly now; a missing guard consumes future occurrences)" % (sorted(fa), ev, now))
     return f, ev, rets, (ab, ai)
 
 
@@ -160,79 +229,6 @@ def _origin_expr(f, name):
                 if rhs is not None:
                     out.add(show(strip_casts(f.cfg.resolve(rhs))))
     return out
-
-
-def _unwinder(prog, rep, rid, unw):
-    cfg = unw.cfg
-    strm = unw.params[0]["n"]
-    tpar = unw.params[1]["n"]
-    peeks = [S for S in call_sites(unw, PEEKS)]
-    pops = [S for S in call_sites(unw, POPS)]
-    if not peeks or not pops:
-        rep.fail(rid, "%s/shape" % unw.name, unw.loc(), "expected a peek and a pop of the stream, found %d/%d" % (len(peeks), len(pops)))
-        return
-    if any(lv(cfg.resolve(S.node["a"][0])) != strm for S in peeks + pops):
-        rep.fail(rid, "%s/same-stream" % unw.name, unw.loc(), "peek and pop do not operate on the parameter stream")
-    else:
-        rep.ok(rid, "%s/same-stream" % unw.name, unw.loc(), "peek and pop both operate on %s" % strm)
-    # the returned variable is assigned from the peek, and no pop lies between the last peek and the return
-    evs = set()
-    for b, i, x, line in cfg.all_elems():
-        for l, kind, n in writes(cfg.resolve(x)):
-            if n.get("k") == "bin" and strip_casts(n["r"]).get("k") == "call" and strip_casts(n["r"]).get("fn") in PEEKS:
-                evs.add(lv(l))
-    rets = [(b, i, lv(cfg.resolve(x["e"]))) for b, i, x, line in cfg.all_elems() if isinstance(x, dict) and x.get("k") == "ret"]
-    if len(evs) == 1 and all(r[2] in evs for r in rets):
-        ev = sorted(evs)[0]
-        rep.ok(rid, "%s/returns-peeked" % unw.name, unw.loc(), "returns %s, assigned only from the peek" % ev)
-    else:
-        rep.fail(rid, "%s/returns-peeked" % unw.name, unw.loc(), "returned value %s is not the peeked event %s" % ([r[2] for r in rets], sorted(evs)))
-        return
-    for rb, ri, _ in rets:
-        hits, reached_entry = backward_scan(cfg, (rb, ri), lambda b, i, x: "hit" if (elem_has_call(x, POPS) or elem_has_call(x, PEEKS)) else None)
-        bad = [h for h in hits if elem_has_call(cfg.elem(*h), POPS) and not elem_has_call(cfg.elem(*h), PEEKS)]
-        if bad or reached_entry:
-            rep.fail(rid, "%s/no-pop-after-last-peek" % unw.name, unw.loc(),
-                     "a path returns after a pop without re-peeking: the returned occurrence has already been consumed")
-        else:
-            rep.ok(rid, "%s/no-pop-after-last-peek" % unw.name, unw.loc(), "every return is preceded by a peek with no pop in between")
-    # decision table {e<now: pop, e=now: keep, e>now: keep, null: stop}: the pop is guarded by a strict `<` and by non-null
-    facts_at_pop = None
-
-    def gen(c, truth):
-        out = set()
-        for a in cond_atoms(c, truth):
-            if len(a) == 5:
-                op, lt, rt, le, re_ = a
-                if "instant_to_tstamp(" in lt.replace(" ", "") and rt == tpar:
-                    out.add(("cmp", op, lt.replace(" ", "")))
-                elif "instant_to_tstamp(" in rt.replace(" ", "") and lt == tpar:
-                    from ..flow import SWAP
-                    out.add(("cmp", SWAP[op], rt.replace(" ", "")))
-            else:
-                kind, text, e = a
-                e = strip(e)
-                if isinstance(e, dict) and e.get("k") == "call" and e.get("fn") in ("echs_event_0_p", "echs_nul_event_p"):
-                    out.add(("null" if kind == "true" else "nonnull", "e"))
-        return out
-    # a new peek invalidates what was known about the previous event
-    # a pop or a new peek invalidates what was known about the previous head of the stream
-    def kills(x):
-        if isinstance(x, dict) and x.get("k") == "call" and x.get("fn") in tuple(PEEKS) + tuple(POPS):
-            return {"e", "instant_to_tstamp(%s.from)" % ev}
-        return set()
-    mf = MustFacts(cfg, gen=gen, kills=kills, disjunctive=False)
-    for qi, Q in enumerate(pops):
-        fa = mf.at(Q.b, Q.i) or set()
-        cmps = [x for x in fa if x[0] == "cmp"]
-        key = "%s/pop-guard" % unw.name if len(pops) == 1 else "%s/pop-guard#%d" % (unw.name, qi + 1)
-        if ("nonnull", "e") in fa and len(cmps) == 1 and cmps[0][1] == "<" and cmps[0][2] == "instant_to_tstamp(%s.from)" % ev:
-            rep.ok(rid, key, unw.loc(Q.line), "pop only while the peeked event is non-null and instant_to_tstamp(%s.from) < %s (strict): "
-                   "table {e<now: pop, e=now: keep, e>now: keep, null: stop}" % (ev, tpar))
-        else:
-            rep.fail(rid, key, unw.loc(Q.line),
-                     "the pop is guarded by %s; required: non-null and instant_to_tstamp(%s.from) < %s with a strict `<` "
-                     "(`<=` drops the occurrence that is due exactly now; a missing guard consumes future occurrences)" % (sorted(fa), ev, tpar))
 
 
 def r04_2(prog, rep, ctx):
@@ -336,6 +332,16 @@ def r04_3(prog, rep):
         for c in calls(x):
             if c.get("fn") == "close":
                 upd["$o:" + lv(cfg.resolve(c["a"][0]))] = 0
+        # a descriptor opened inside a helper the inliner spliced in comes back through `__ret_helper = fd$helper`, `fd = __ret_helper`:
+        # the helper's own variable is dead after the return, the obligation to close moves to the receiving variable
+        for l, kind, n in writes(x):
+            if kind == "assign" and n.get("k") == "bin" and n["op"] == "=":
+                r = strip_casts(cfg.resolve(n["r"]))
+                if r.get("k") == "ref" and ("$" in r["n"] or r["n"].startswith("__ret_")) and ("$o:" + r["n"]) in store:
+                    upd["$o:" + lv(l)] = store["$o:" + r["n"]]
+                    upd["$o:" + r["n"]] = 0
+                    if r["n"] in opened:
+                        opened.add(lv(l))
         return upd
 
     def assume(b, si, cond, store):
